@@ -308,8 +308,17 @@ def build(prog, env=None, dialect="generic", share=False):
         env = Env(prog.get("q") or dialect)
     Q = env.Q
     opts = prog.get("opts") or {}
-    q = Q._builder(**opts)
-    for c in prog["calls"]:
+    calls = prog["calls"]
+    if calls and calls[0][0] == "with" and not opts and hasattr(Q, "with_"):
+        # a statement that starts with its CTE is started through the query class's own with_() (a classmethod)
+        c = calls[0]
+        sub = _build_sub(c[2], env)
+        env.sym[c[1]] = AliasedQuery(c[1])
+        q = Q.with_(sub, c[1])
+        calls = calls[1:]
+    else:
+        q = Q._builder(**opts)
+    for c in calls:
         q = call(q, c, env)
     return q
 
